@@ -218,6 +218,43 @@ fn shape(strings: &[&str]) -> &'static str {
     }
 }
 
+/// how many levels above the configured root /S/d1/d2/cache an observed entry lies (0 = inside)
+fn climb_of(abs_path: &str) -> usize {
+    let root = ["S", "d1", "d2", "cache"];
+    let comps: Vec<&str> = abs_path.split('/').filter(|g| !g.is_empty()).collect();
+    let common = root.iter().zip(comps.iter()).take_while(|(a, b)| a == b).count();
+    root.len() - common
+}
+/// how far the string AS IT STANDS can climb above the directory it is joined onto (Unix
+/// resolution: "" and "." stay, ".." goes up, anything else - `" .."` included - goes down); a
+/// string that resolves to the join point itself or above gets one more level for the
+/// `with_extension` temporary file beside it. An upper bound on what the unchanged text explains.
+fn literal_climb(s: &str) -> usize {
+    let (mut depth, mut min) = (0i64, 0i64);
+    for g in s.split('/') {
+        match g {
+            "" | "." => {}
+            ".." => depth -= 1,
+            _ => depth += 1,
+        }
+        min = min.min(depth);
+    }
+    let beside = if depth <= 0 { -depth + 1 } else { 0 };
+    (-min).max(beside) as usize
+}
+/// `shape`, looking at what was observed as well: an escape through real ".." segments that climbs
+/// higher than those segments can (the name was trimmed / re-spelled on the way) is "disguised",
+/// not the known raw-key shape "dotdot". `depth` = fixed components between the root and the text.
+fn shape_fs(strings: &[&str], depth: usize, outside: &[String]) -> &'static str {
+    let base = shape(strings);
+    if base != "dotdot" || strings.iter().any(|s| s.starts_with('/')) {
+        return base;
+    }
+    let explained = strings.iter().map(|s| literal_climb(s)).sum::<usize>().saturating_sub(depth);
+    let observed = outside.iter().map(|p| climb_of(p)).max().unwrap_or(0);
+    if observed > explained { "disguised" } else { "dotdot" }
+}
+
 // ---------------------------------------------------------------- local HTTP server
 #[derive(Default)]
 struct Seen {
@@ -351,7 +388,8 @@ fn fmt_put(ok: bool, d: &Diff) -> String {
 /// the confinement oracle, shared by every op
 fn check_confined(s: &mut Session, api: &str, strings: &[&str], d: &Diff, req: &str) {
     if !d.outside.is_empty() {
-        let sig = format!("escape-{api}-{}", shape(strings));
+        let depth = match api { "cdn" => 1, "query" => 2, _ => 0 };
+        let sig = format!("escape-{api}-{}", shape_fs(strings, depth, &d.outside));
         s.oracle_fail(&sig, &format!("{api}: entries created/removed outside the configured directory /S/d1/d2/cache: {:?} (inputs {:?})", d.outside, strings), &[req.to_string()]);
     }
 }
@@ -656,7 +694,7 @@ fn run_line(s: &mut Session, ctx: &mut Ctx, req: &str) -> Option<String> {
                 Ok(Ok(Some(data))) => {
                     let which = String::from_utf8_lossy(&data).into_owned();
                     if which != "/S/d1/d2/cache/inside" {
-                        s.oracle_fail(&format!("read-escape-disk-{}", shape(&[&key])), &format!("DiskCache::get({key:?}) returned the content of {which}, a file outside the cache directory"), &[req.to_string()]);
+                        s.oracle_fail(&format!("read-escape-disk-{}", shape_fs(&[&key], 0, std::slice::from_ref(&which))), &format!("DiskCache::get({key:?}) returned the content of {which}, a file outside the cache directory"), &[req.to_string()]);
                     }
                     s.tally("rget.hit");
                     Some(format!("hit {}", enc(&which)))
@@ -1104,11 +1142,11 @@ fn run_line(s: &mut Session, ctx: &mut Ctx, req: &str) -> Option<String> {
             // hashed layouts create their directories inside the root on the way; only removals count
             let gone_outside: Vec<&String> = d.removed.iter().filter(|p| !(p.as_str() == "/S/d1/d2/cache" || p.starts_with("/S/d1/d2/cache/"))).collect();
             if !gone_outside.is_empty() {
-                s.oracle_fail(&format!("delete-escape-disk-{}", shape(&[&key])), &format!("DiskCache::remove({key:?}) deleted {gone_outside:?}, outside the cache directory /S/d1/d2/cache"), &[req.to_string()]);
+                s.oracle_fail(&format!("delete-escape-disk-{}", shape_fs(&[&key], 0, &gone_outside.iter().map(|x| (*x).clone()).collect::<Vec<_>>())), &format!("DiskCache::remove({key:?}) deleted {gone_outside:?}, outside the cache directory /S/d1/d2/cache"), &[req.to_string()]);
             }
             let created_outside: Vec<&String> = d.new_files.iter().chain(d.new_dirs.iter()).filter(|p| !p.starts_with("/S/d1/d2/cache/")).collect();
             if !created_outside.is_empty() {
-                s.oracle_fail(&format!("escape-disk-{}", shape(&[&key])), &format!("DiskCache::remove({key:?}) created {created_outside:?} outside the cache directory"), &[req.to_string()]);
+                s.oracle_fail(&format!("escape-disk-{}", shape_fs(&[&key], 0, &created_outside.iter().map(|x| (*x).clone()).collect::<Vec<_>>())), &format!("DiskCache::remove({key:?}) created {created_outside:?} outside the cache directory"), &[req.to_string()]);
             }
             match r {
                 Err(_) => { s.oracle_fail("panic-disk", &format!("DiskCache::remove panicked for key {key:?}"), &[req.to_string()]); Some("panic".into()) }
@@ -1291,12 +1329,17 @@ fn respelled_forms(core: &str) -> Vec<String> {
 const REL_CORES: &[&str] = &["..", "../escaped", "../../escaped", "../../../escaped", "x/../../escaped"];
 /// absolute cores, strictly below the scratch parent and outside the configured root
 const ABS_CORES: &[&str] = &["/S/evil", "/S/d1/d2/evil"];
-/// the boundary family for one API: every padding of the first cores, a sample of the others
-fn disguised(rng: &mut Rng, thorough: bool, with_abs: bool, extra: &[&str]) -> Vec<String> {
+/// the boundary family for one API: every padding / spelling of the cores in `full` (the ones that
+/// leave the root as soon as the API's own prefix is used up), a sample of the other relative
+/// cores and of `extra`, and - for APIs that join the string directly - the absolute cores
+fn disguised(rng: &mut Rng, thorough: bool, with_abs: bool, full: &[&str], extra: &[&str]) -> Vec<String> {
     let mut v = vec![];
-    for (i, c) in REL_CORES.iter().chain(extra.iter()).enumerate() {
+    for c in full {
+        v.extend(padded_forms(c).into_iter().chain(respelled_forms(c)));
+    }
+    for c in REL_CORES.iter().chain(extra.iter()).filter(|c| !full.contains(c)) {
         for f in padded_forms(c).into_iter().chain(respelled_forms(c)) {
-            if thorough || i < 2 || rng.chance(1, 3) { v.push(f); }
+            if thorough || rng.chance(1, 3) { v.push(f); }
         }
     }
     if with_abs {
@@ -1478,7 +1521,7 @@ fn main() {
     let args = Args::parse();
     quiet_panics();
     let mut s = Session::new(&args.out);
-    s.rule = "every request runs the real API in a fresh scratch parent /S with root /S/d1/d2/cache; inputs: exhaustive raw keys over the segment alphabet {'..','.','','a','b.x'} up to 4 segments (relative, trailing '/', absolute under /S), seeded hostile strings (.., ., empty, absolute, 255/256-byte names, NUL, non-ASCII, ':' , '.tmp' endings), all ten typed keys with well-formed and hostile fields on flat and hashed layouts, each of the 18 public key constructors by name, assignments to public key fields after the text was read, format_cache_key, cold DiskCache::remove with planted files inside and outside, RangeDownloader::download_archive_content with archive names of every shape, segment file names, the index temporary name, ProtocolCache keys, query endpoints, CDN paths/hosts with content keys of every length 0..=32 through every CdnClient entry point, installation names, fixed-width formatters; non-trivial = the call reached the file system or the URL/key builder (not unsafe-skip / n/a / bad-op); distinct = canonical request text".into();
+    s.rule = "every request runs the real API in a fresh scratch parent /S with root /S/d1/d2/cache; inputs: exhaustive raw keys over the segment alphabet {'..','.','','a','b.x'} up to 4 segments (relative, trailing '/', absolute under /S), seeded hostile strings (.., ., empty, absolute, 255/256-byte names, NUL, non-ASCII, ':' , '.tmp' endings), all ten typed keys with well-formed and hostile fields on flat and hashed layouts, each of the 18 public key constructors by name, assignments to public key fields after the text was read, format_cache_key, cold DiskCache::remove with planted files inside and outside, RangeDownloader::download_archive_content with archive names of every shape, segment file names, the index temporary name, ProtocolCache keys, query endpoints, CDN paths/hosts with content keys of every length 0..=32 through every CdnClient entry point, installation names, fixed-width formatters; for every string-taking API the hostile cores ('..', '../x' up to three levels, '/S/evil') behind / in front of / between 13 padding characters (blank, tab, NL, CR, VT, FF, NBSP, U+3000, U+2028, U+FEFF, U+200B, quotes) and re-spelled (back-slashes, padded segments, percent-encoding, full-width and two-dot-leader characters, trailing dots, upper case); well-formed typed keys in separator-shift families for '_' and '-' (same concatenation, every field boundary), joiner families over '_','-','/','.', case pairs and 64-byte names differing in one byte, plus random names glued from a small token pool; op cdnx = call sequences for one hash on one CDN path through one CdnClient (all ordered pairs of download config/data/patch, archive index, range, resume, progress; A;B;A; disk and memory cache; random sequences of 2..5) against a mock CDN that serves different bytes per URL; non-trivial = the call reached the file system or the URL/key builder (not unsafe-skip / n/a / bad-op); distinct = canonical request text".into();
     let rt = tokio::runtime::Builder::new_multi_thread().worker_threads(2).enable_all().build().expect("rt");
     let mut ctx = Ctx { rt, srv: start_server(), finals: HashMap::new(), temps: HashMap::new(), all_finals: HashMap::new(), ctor_texts: HashMap::new() };
     let mut rng = Rng::new(args.seed);
@@ -1533,7 +1576,7 @@ fn main() {
     // hostile cores behind padding and in other spellings (flat layout: the padded "/S/…" forms
     // are substituted textually, see Sandbox::real): put, ProtocolCache, cold get, cold remove
     {
-        let forms = disguised(&mut rng, thorough, true, &["../../secret", "../../../d1/secret"]);
+        let forms = disguised(&mut rng, thorough, true, &["..", "../escaped"], &["../../secret", "../../../d1/secret"]);
         for (i, f) in forms.iter().enumerate() {
             if !thorough && i % 2 != (args.seed % 2) as usize { continue; }
             let op = match i % 5 { 0 | 1 => "raw flat", 2 => "rget flat", 3 => "rdel flat", _ => "pcache" };
@@ -1613,7 +1656,7 @@ fn main() {
     }
     // hostile cores behind padding and in other spellings, in every text field
     {
-        let forms = disguised(&mut rng, thorough, false, &["/x"]);
+        let forms = disguised(&mut rng, thorough, false, &["..", "../escaped"], &["/x"]);
         let z = "00".repeat(16);
         for (i, f) in forms.iter().enumerate() {
             if !thorough && i % 3 != (args.seed % 3) as usize { continue; }
@@ -1642,7 +1685,7 @@ fn main() {
     eps.push(format!("{}/x", "a".repeat(256)));
     eps.push("é".repeat(500));
     eps.push("é".repeat(501));
-    eps.extend(disguised(&mut rng, thorough, false, &["v1/../../../x", "/x", "v1/products/../../x"]));
+    eps.extend(disguised(&mut rng, thorough, false, &["../../../escaped"], &["v1/../../../x", "/x", "v1/products/../../x"]));
     let n_q = if thorough { 800 } else { 120 };
     for _ in 0..n_q {
         let e = if rng.chance(1, 3) { wf_endpoint(&mut rng) } else { hostile_string(&mut rng) };
@@ -1683,9 +1726,8 @@ fn main() {
     for _ in 0..(if thorough { 300 } else { 40 }) {
         paths.push(hostile_string(&mut rng));
     }
-    for f in disguised(&mut rng, thorough, false, &["tpr/../../../x", "/x"]) {
-        if thorough || rng.chance(1, 3) { paths.push(f); }
-    }
+    // "cdn/" stands in front of the path: two levels leave the root
+    paths.extend(disguised(&mut rng, thorough, false, &["../..", "../../escaped"], &["tpr/../../../x", "/x"]));
     for p in &paths {
         let key = rng.bytes(16);
         let cu = if cu_ok(p) { 1 } else { 0 };
@@ -1731,7 +1773,7 @@ fn main() {
     names.push("a".repeat(256));
     // names whose raw form has Normal components only and whose trimmed / re-spelled form is "..",
     // starts with "..", or is absolute
-    names.extend(disguised(&mut rng, thorough, true, &["a/../../evil", "."]));
+    names.extend(disguised(&mut rng, thorough, true, &["..", "../escaped"], &["a/../../evil", "."]));
     for _ in 0..(if thorough { 500 } else { 80 }) {
         names.push(hostile_string(&mut rng));
     }
